@@ -717,3 +717,167 @@ def count_stmts(p):
         return s
     map_program(p, fs, lambda e: e)
     return n[0]
+
+
+# ------------------------------------------------------------- prefix text form -> AST (corpus, replay)
+
+class _Toks:
+    def __init__(self, text):
+        self.t = text.split()
+        self.i = 0
+
+    def next(self):
+        v = self.t[self.i]
+        self.i += 1
+        return v
+
+    def int(self):
+        return int(self.next())
+
+
+def unhexs(h):
+    return "" if h == "-" else bytes.fromhex(h).decode("latin-1")
+
+
+def parse_expr(t):
+    k = t.next()
+    if k == "i":
+        return ("i", t.int())
+    if k == "s":
+        return ("s", unhexs(t.next()))
+    if k == "nil":
+        return ("nil",)
+    if k == "var":
+        sc = t.next()
+        return ("var", sc, t.int())
+    if k == "x":
+        a = parse_expr(t)
+        return ("x", a, parse_expr(t))
+    if k in ("neg", "not", "cpl", "size"):
+        return (k, parse_expr(t))
+    if k == "b":
+        op = t.next()
+        a = parse_expr(t)
+        return ("b", op, a, parse_expr(t))
+    if k in ("and", "or"):
+        a = parse_expr(t)
+        return (k, a, parse_expr(t))
+    if k == "call":
+        f = t.int()
+        n = t.int()
+        return ("call", f, [parse_expr(t) for _ in range(n)])
+    if k == "carr":
+        n = t.int()
+        return ("carr", [parse_expr(t) for _ in range(n)])
+    raise ValueError("expr token " + k)
+
+
+def parse_lval(t):
+    if t.next() != "lv":
+        raise ValueError("lval")
+    sc = t.next()
+    x = t.int()
+    n = t.int()
+    return ("lv", sc, x, [parse_expr(t) for _ in range(n)])
+
+
+def parse_stmt(t):
+    k = t.next()
+    if k in ("nop", "brk", "cont", "end0"):
+        return (k,)
+    if k == "set":
+        l = parse_lval(t)
+        return ("set", l, parse_expr(t))
+    if k == "cset":
+        op = t.next()
+        l = parse_lval(t)
+        return ("cset", op, l, parse_expr(t))
+    if k in ("inc", "dec"):
+        return (k, parse_lval(t))
+    if k == "if":
+        c = parse_expr(t)
+        return ("if", c, parse_stmt(t))
+    if k == "ife":
+        c = parse_expr(t)
+        a = parse_stmt(t)
+        return ("ife", c, a, parse_stmt(t))
+    if k == "while":
+        c = parse_expr(t)
+        return ("while", c, parse_stmt(t))
+    if k == "for":
+        i = parse_stmt(t)
+        c = parse_expr(t)
+        inc = parse_stmt(t)
+        return ("for", i, c, inc, parse_stmt(t))
+    if k == "do":
+        b = parse_stmt(t)
+        return ("do", b, parse_expr(t))
+    if k == "sw":
+        e = parse_expr(t)
+        n = t.int()
+        items = []
+        for _ in range(n):
+            kk = t.next()
+            if kk == "ci":
+                items.append(("ci", t.int()))
+            elif kk == "cs":
+                items.append(("cs", unhexs(t.next())))
+            elif kk == "cd":
+                items.append(("cd",))
+            elif kk == "st":
+                items.append(("st", parse_stmt(t)))
+            else:
+                raise ValueError("switch item " + kk)
+        return ("sw", e, items)
+    if k == "blk":
+        n = t.int()
+        return ("blk", [parse_stmt(t) for _ in range(n)])
+    if k == "goto":
+        return ("goto", t.int())
+    if k == "try":
+        b = parse_stmt(t)
+        n = t.int()
+        hs = []
+        for _ in range(n):
+            f = t.int()
+            np = t.int()
+            ps = []
+            for _ in range(np):
+                sc = t.next()
+                ps.append((sc, t.int()))
+            nb = t.int()
+            hs.append((f, ps, [parse_stmt(t) for _ in range(nb)]))
+        return ("try", b, hs)
+    if k in ("throw", "th"):
+        f = t.int()
+        n = t.int()
+        return (k, f, [parse_expr(t) for _ in range(n)])
+    if k == "pr":
+        n = t.int()
+        return ("pr", [parse_expr(t) for _ in range(n)])
+    if k == "end1":
+        return ("end1", parse_expr(t))
+    raise ValueError("stmt token " + k)
+
+
+def parse_program(text):
+    t = _Toks(text)
+    if t.next() != "prog":
+        raise ValueError("prog")
+    n = t.int()
+    p = []
+    for _ in range(n):
+        k = t.next()
+        if k == "lab":
+            f = t.int()
+            np = t.int()
+            ps = []
+            for _ in range(np):
+                sc = t.next()
+                ps.append((sc, t.int()))
+            p.append(("lab", f, ps))
+        elif k == "st":
+            p.append(("st", parse_stmt(t)))
+        else:
+            raise ValueError("item token " + k)
+    return p
